@@ -124,6 +124,7 @@ def run(ctx):
     if admdrv:
         p = subprocess.run([admdrv, 'acc'], stdout=subprocess.PIPE, stderr=subprocess.PIPE, universal_newlines=True, timeout=900)
         lines = [l for l in p.stdout.split('\n') if l.startswith('acc ')]
+        cross_lines = [l for l in p.stdout.split('\n') if l.startswith('cross ')]
         if p.returncode != 0:
             ctx.violation('the accessor probes crashed (rc %d)' % p.returncode, dict(kind='probe-crash', stderr=p.stderr[-2000:]),
                           found_input=False)
@@ -133,6 +134,24 @@ def run(ctx):
     findings = {}
     nsteps = 0
     nontrivial = 0
+    for l in (cross_lines if build_err is None else []):
+        t = l.split(' ', 4)
+        name = '%s::%s-then-%s' % (t[1], t[2], t[3])
+        rest = t[4] if len(t) > 4 else ''
+        if rest.startswith('novalues'):
+            continue
+        nsteps += 2
+        if rest.startswith('EXCEPTION'):
+            findings.setdefault('cross-exception:' + name, ('%s: %s' % (name, rest[:200]), l))
+            continue
+        f = dict(x.split('=', 1) for x in rest.split(' ') if '=' in x)
+        if f.get('hasA') != '0':
+            findings.setdefault('alternative-not-cleared:' + name,
+                                ('%s: after set(%s) then set(%s) the object still has %s' % (t[1], t[2], t[3], t[2]), l))
+        if f.get('hasB') != '1' or f.get('getB') != f.get('expected'):
+            findings.setdefault('alternative-not-set:' + name,
+                                ('%s: after set(%s) then set(%s), %s reads %s (has=%s), expected %s'
+                                 % (t[1], t[2], t[3], t[3], f.get('getB'), f.get('hasB'), f.get('expected')), l))
     for l in lines:
         cls, par, caps, nvals, steps, exc = parse_line(l)
         nsteps += len(steps)
